@@ -193,5 +193,5 @@ if __name__ == "__main__":
              "sees Connected/Disconnected exactly once and in order, no inbound stream before Connected returned at every notifiee, "
              "Swarm.Close returns after all callbacks, no repeated published state, final event = Connectedness, ConnsToPeer = the "
              "announced conns that were not disconnected.",
-        describe=describe, key=key, what=what, crosscheck=60,
+        describe=describe, key=key, what=what, crosscheck=40,
     ))
